@@ -376,6 +376,7 @@ PROPS["C10"] = {
         I("c10txt::c10_int_f3", bounds="parse_int: 3 free chars over {0, 9, 5, a, space}, free start; value vs reference", termination=_SCANNERS),
         I("c10txt::c10_int_mb", bounds="parse_int: widths [1,2,1,1] (2-byte char = ARABIC-INDIC DIGIT), free start", termination=_SCANNERS),
         I("c10txt::c10_int_f5", "thorough", bounds="parse_int: 5 free chars, free start", termination=_SCANNERS),
+        I("c12::c12_int_d20", bounds="parse_int: 20 free digits, value vs a 128-bit reference (numbers next to usize::MAX)", termination=_SCANNERS),
         I("c10txt::c10_txt_witness", bounds="reachability twin (a quote + 2 free chars)", expect_fail=True),
     ],
     "jobs": {"quick": 14, "thorough": 12},
